@@ -14,6 +14,8 @@
 #include <vector>
 #include <fstream>
 #include <unistd.h>
+#include <signal.h>
+#include <fcntl.h>
 #include <sys/mman.h>
 #include <sys/wait.h>
 
@@ -252,6 +254,7 @@ inline Verdict run_forked(const std::string &prop, const std::function<Verdict()
         close(errpipe[0]);
         dup2(errpipe[1], 2);
         close(errpipe[1]);
+        signal(SIGALRM, SIG_DFL); // (under libFuzzer the parent has its own alarm handler)
         alarm(timeout_s);
         Verdict v = fn();
         child_finish(v);
@@ -288,27 +291,55 @@ inline Verdict run_forked(const std::string &prop, const std::function<Verdict()
 }
 
 
-// libFuzzer targets: counters are flushed to $FUZZ_OUT/fuzz-stats.<pid> every 4096 executions and on failure;
-// a failing case is written as text to $FUZZ_OUT/fuzz-fail.<pid>.case before trapping (sanitizer-style abort).
-inline void fuzz_account(const std::string &text, const Verdict &v) {
-    static uint64_t execs = 0, nontrivial = 0; static std::unordered_set<uint64_t> hashes; static std::string sample;
-    execs++;
-    if (v.nontrivial) { nontrivial++; if (hashes.size() < 2000000) hashes.insert(fnv1a(text)); if (sample.empty() || (execs % 50000) == 0) sample = text; }
+// libFuzzer targets: counters are flushed to $FUZZ_OUT/fuzz-stats.<pid> every 4096 executions, at exit and on failure;
+// the text of the case being executed is kept in a shared mapping of $FUZZ_OUT/fuzz-cur.<pid> (survives a sanitizer abort);
+// a case failing the oracle is written as text to $FUZZ_OUT/fuzz-fail.<pid>.case before trapping (sanitizer-style abort).
+inline void fuzz_pre(const std::string &text) {
+    static char *buf = nullptr; static const size_t cap = 1 << 16;
     const char *out = getenv("FUZZ_OUT");
-    auto flush = [&]() {
-        if (!out) return;
-        std::string p = std::string(out) + "/fuzz-stats." + std::to_string(getpid());
-        FILE *f = fopen(p.c_str(), "w"); if (!f) return;
-        fprintf(f, "{\"execs\": %llu, \"nontrivial\": %llu, \"distinct_nontrivial\": %zu, \"sample\": \"%s\"}\n", (unsigned long long)execs, (unsigned long long)nontrivial, hashes.size(), json_escape(sample).c_str());
-        fclose(f);
-    };
+    if (!out) return;
+    if (!buf) {
+        std::string p = std::string(out) + "/fuzz-cur." + std::to_string(getpid());
+        int fd = open(p.c_str(), O_CREAT | O_RDWR | O_TRUNC, 0600);
+        if (fd < 0 || ftruncate(fd, cap) != 0) return;
+        buf = (char *)mmap(nullptr, cap, PROT_READ | PROT_WRITE, MAP_SHARED, fd, 0);
+        close(fd);
+        if (buf == MAP_FAILED) { buf = nullptr; return; }
+    }
+    size_t n = std::min(text.size(), cap - 1);
+    memcpy(buf, text.data(), n); buf[n] = 0;
+}
+struct FuzzAcct { uint64_t execs = 0, nontrivial = 0; std::unordered_set<uint64_t> hashes; std::string sample; std::map<std::string, uint64_t> classes; };
+inline FuzzAcct &fuzz_acct() { static FuzzAcct a; return a; }
+inline void fuzz_flush() {
+    const char *out = getenv("FUZZ_OUT");
+    if (!out) return;
+    FuzzAcct &A = fuzz_acct();
+    std::string p = std::string(out) + "/fuzz-stats." + std::to_string(getpid());
+    FILE *f = fopen(p.c_str(), "w"); if (!f) return;
+    fprintf(f, "{\"execs\": %llu, \"nontrivial\": %llu, \"distinct_nontrivial\": %zu, \"sample\": \"%s\", \"classes\": {", (unsigned long long)A.execs, (unsigned long long)A.nontrivial, A.hashes.size(), json_escape(A.sample).c_str());
+    bool first = true; for (auto &kv : A.classes) { fprintf(f, "%s\"%s\": %llu", first ? "" : ", ", json_escape(kv.first).c_str(), (unsigned long long)kv.second); first = false; }
+    fprintf(f, "}}\n");
+    fclose(f);
+    std::string hp = std::string(out) + "/fuzz-hashes." + std::to_string(getpid());
+    FILE *h = fopen(hp.c_str(), "wb"); if (!h) return;
+    for (uint64_t x : A.hashes) fwrite(&x, 8, 1, h);
+    fclose(h);
+}
+inline void fuzz_account(const std::string &text, const Verdict &v) {
+    FuzzAcct &A = fuzz_acct();
+    static bool registered = false; if (!registered) { registered = true; atexit(fuzz_flush); }
+    A.execs++;
+    for (auto &c : v.classes) A.classes[c]++;
+    if (v.nontrivial) { A.nontrivial++; if (A.hashes.size() < 2000000) A.hashes.insert(fnv1a(text)); if (A.sample.empty() || (A.execs % 50000) == 0) A.sample = text; }
+    const char *out = getenv("FUZZ_OUT");
     if (!v.ok) {
         if (out) write_file(std::string(out) + "/fuzz-fail." + std::to_string(getpid()) + ".case", "# rule " + v.rule + "\n# " + v.message.substr(0, 300) + "\n" + text);
-        flush();
+        fuzz_flush();
         fprintf(stderr, "FUZZ-VIOLATION %s: %s\n", v.rule.c_str(), v.message.c_str());
         __builtin_trap();
     }
-    if ((execs & 4095) == 0) flush();
+    if ((A.execs & 16383) == 0) fuzz_flush();
 }
 
 } // namespace rt
